@@ -48,16 +48,24 @@ def realPowers : Powers where
 /-- the exception of ppNeedsBrackets: a product or quotient under a product is never parenthesised -/
 def realExc (K k : Nat) : Bool := decide (K = iTimes) && (decide (k = iTimes) || decide (k = iDiv))
 
-/-- what ppNeedsBrackets reads of a node, for an operator head of the real table -/
-def bnOf : Head → BN
-  | .atom => ⟨"identifier", 0, false, 0⟩
-  | .bin k => ⟨((infixOps[k]?).map (·.1)).getD "", realPowers.bp k, true, 2⟩
-  | .pre k => ⟨((prefixOps[k]?).map (·.1)).getD "", realPowers.pb k, ((prefixOps[k]?).map (·.2.2)).getD false, 1⟩
+/-- what ppNeedsBrackets reads of a node, for an operator head of the real table; `pure` = the value of the
+    sub-tree predicate ppIsProductChain for that node -/
+def bnOf (h : Head) (pure : Bool := true) : BN :=
+  match h with
+  | .atom => ⟨"identifier", 0, false, 0, fun _ => pure⟩
+  | .bin k => ⟨((infixOps[k]?).map (·.1)).getD "", realPowers.bp k, true, 2, fun _ => pure⟩
+  | .pre k => ⟨((prefixOps[k]?).map (·.1)).getD "", realPowers.pb k, ((prefixOps[k]?).map (·.2.2)).getD false, 1,
+      fun _ => pure⟩
 
-/-- the same head as a node of the full printer model -/
-def nodeOf (h : Head) : Ecal.Parse.Node :=
+/-- the same head as a node of the full printer model; for `pure = false` an infix head gets a left operand
+    `a % b` of its own binding (its product chain is then impure), otherwise its operands are absent -/
+def nodeOf (h : Head) (pure : Bool := true) : Ecal.Parse.Node :=
   let b := bnOf h
-  Ecal.Parse.Node.mk b.name none b.binding .none (if b.hasLd then .infix else .none) (List.replicate b.nch none) []
+  let kids : List (Option Ecal.Parse.Node) :=
+    if !pure && b.nch = 2 then
+      [some (Ecal.Parse.Node.mk "modint" none b.binding .none .infix [none, none] []), none]
+    else List.replicate b.nch none
+  Ecal.Parse.Node.mk b.name none b.binding .none (if b.hasLd then .infix else .none) kids []
 
 /-- all heads of the real table -/
 def allHeads : List Head :=
